@@ -176,13 +176,16 @@ pub fn op_sign_salt(n: usize, keyseed: &[u8], msg: &[u8], rngseed: u64) -> Strin
 pub fn op_sign_fresh(n: usize, keyseed: &[u8], count: usize, threads: usize) -> String {
     let k = key(n, keyseed);
     let per = count / threads.max(1);
-    let results: Vec<(Vec<Vec<u8>>, usize)> = std::thread::scope(|s| {
+    let results: Vec<(Vec<Vec<u8>>, usize, usize)> = std::thread::scope(|s| {
         let hs: Vec<_> = (0..threads)
             .map(|t| {
                 let k = k.clone();
                 s.spawn(move || {
                     let mut salts = vec![];
                     let mut ok = 0;
+                    let mut eq_objects = 0usize;
+                    let mut prev512: Vec<(Vec<u8>, Result<falcon512::Signature, _>)> = vec![];
+                    let mut prev1024: Vec<(Vec<u8>, Result<falcon1024::Signature, _>)> = vec![];
                     for i in 0..per {
                         // same message in every call and thread for half of them
                         let msg = if i % 2 == 0 {
@@ -196,16 +199,40 @@ pub fn op_sign_fresh(n: usize, keyseed: &[u8], count: usize, threads: usize) -> 
                             AnySk::S512(sk, pk) => {
                                 let sig = falcon512::sign(&msg, sk);
                                 ok += falcon512::verify(&msg, &sig, pk) as usize;
-                                salts.push(sig.to_bytes()[1..41].to_vec());
+                                let b = sig.to_bytes();
+                                salts.push(b[1..41].to_vec());
+                                // `==` on signature objects must say "different" for different signatures
+                                let obj = falcon512::Signature::from_bytes(&b);
+                                for (pb, po) in prev512.iter() {
+                                    if *pb != b && matches!((&obj, po), (Ok(x), Ok(y)) if x == y) {
+                                        eq_objects += 1;
+                                    }
+                                }
+                                prev512.push((b, obj));
+                                if prev512.len() > 8 {
+                                    prev512.remove(0);
+                                }
                             }
                             AnySk::S1024(sk, pk) => {
                                 let sig = falcon1024::sign(&msg, sk);
                                 ok += falcon1024::verify(&msg, &sig, pk) as usize;
-                                salts.push(sig.to_bytes()[1..41].to_vec());
+                                let b = sig.to_bytes();
+                                salts.push(b[1..41].to_vec());
+                                // `==` on signature objects must say "different" for different signatures
+                                let obj = falcon1024::Signature::from_bytes(&b);
+                                for (pb, po) in prev1024.iter() {
+                                    if *pb != b && matches!((&obj, po), (Ok(x), Ok(y)) if x == y) {
+                                        eq_objects += 1;
+                                    }
+                                }
+                                prev1024.push((b, obj));
+                                if prev1024.len() > 8 {
+                                    prev1024.remove(0);
+                                }
                             }
                         }
                     }
-                    (salts, ok)
+                    (salts, ok, eq_objects)
                 })
             })
             .collect();
@@ -213,15 +240,17 @@ pub fn op_sign_fresh(n: usize, keyseed: &[u8], count: usize, threads: usize) -> 
     });
     let mut all: Vec<Vec<u8>> = vec![];
     let mut ok = 0;
-    for (s, o) in results {
+    let mut eq_objects = 0;
+    for (s, o, e) in results {
         all.extend(s);
         ok += o;
+        eq_objects += e;
     }
     let total = all.len();
     let constant = (0..40).filter(|&p| all.iter().all(|s| s[p] == all[0][p])).count();
     all.sort();
     all.dedup();
-    format!("{} {} {} {}", total, all.len(), constant, ok)
+    format!("{} {} {} {} {}", total, all.len(), constant, ok, eq_objects)
 }
 
 /// `sign_key_after_key N seedA,seedB,…`: on one thread, for each seed in turn: generate the key pair into locals, sign,
